@@ -157,7 +157,8 @@ def run(chk):
     chk.floor("R7", len(msgs), 1, "can.Message in PeriodicMessageTask.__init__")
     for c in msgs:
         kw = {k.arg: src(k.value) for k in c.keywords}
-        copies = ("None if data is None else bytearray(data)", "bytearray(data)", "bytes(data)", "None if data is None else bytes(data)")
+        copies = ("None if data is None else bytearray(data)", "bytearray(data)", "bytes(data)", "None if data is None else bytes(data)",
+                  "bytearray() if data is None else bytearray(data)", "b'' if data is None else bytes(data)")
         chk.check(kw.get("arbitration_id") == "can_id" and kw.get("data") in ("data",) + copies and kw.get("is_remote_frame") == "remote", "R7",
                   f"{NET}:PeriodicMessageTask.__init__ | message fields", pmt.loc(c), f"message built from {kw}")
         chk.check(kw.get("data") in copies, "R6", f"{NET}:PeriodicMessageTask.__init__ | the task owns its payload", pmt.loc(c),
